@@ -165,6 +165,18 @@ func cmdCheck(args []string) int {
 		all = append(all, res.Obs...)
 	}
 	solveAll(all, workDir, timeout, *keep)
+	// undecided obligations (no model) are given one more attempt on an otherwise idle machine with twice the time:
+	// a solver timeout under load must not be reported as a violation
+	var again []*Obligation
+	for _, o := range all {
+		if !o.Cover && o.failed() && o.Res.Status != "sat" {
+			again = append(again, o)
+		}
+	}
+	if len(again) > 0 && len(again) <= 24 {
+		fmt.Fprintf(os.Stderr, "retrying %d undecided obligation(s) with timeout %ds\n", len(again), 2*timeout)
+		solveAll(again, workDir, 2*timeout, *keep)
+	}
 
 	// ---- report
 	violations := 0
